@@ -29,7 +29,7 @@ METHODS = [
     "hanssen_and_kuipers_discriminant", "sensitivity", "specificity", "true_negative_rate", "recall", "precision",
     "positive_predictive_value", "negative_predictive_value", "f1_score", "equitable_threat_score", "gilberts_skill_score",
     "heidke_skill_score", "cohens_kappa", "odds_ratio", "odds_ratio_skill_score", "yules_q", "symmetric_extremal_dependence_index"]
-SITES = ["C09.m." + m for m in METHODS] + ["C09.pod", "C09.pofd", "C09.pod_ratio", "C09.pofd_ratio"]
+SITES = ["C09.m." + m for m in METHODS] + ["C09.pod", "C09.pofd", "C09.pod_ratio", "C09.pofd_ratio", "C08.maps"]
 RULE = ("every table (tp,fp,fn,tn) of naturals with total <= 6 (quick) / <= 12 (thorough) exhaustively, through the real "
         "BasicContingencyManager built from a counts dict of DataArrays, all 34 public metric methods; plus random large tables "
         "(cells up to 2000, zero cells forced with p=0.3) and 1-3 dimensional count arrays whose four members are stored with "
